@@ -98,7 +98,8 @@ fn main() {
                 }
                 let mut g = gen::Gen::new(rng.fork(i as u64), cfg, &qs);
                 let (prog, globals) = g.file();
-                let src = 1 + rng.below(srcs.len());
+                let ordinary = srcs.iter().filter(|s| !s.name.contains("_many")).count();
+                let src = 1 + rng.below(ordinary);
                 let both = rng.chance(1, 1);
                 let dbg = rng.chance(1, 4);
                 for mode in ["strict", "lazy"] {
